@@ -5,6 +5,7 @@
 import PygModel.Sort
 import PygProofs.Lemmas.CmpLemmas
 import PygProofs.Lemmas.NativeLemmas
+import PygModel.SortTable
 
 namespace Pyg.Props.C07
 open Pyg
@@ -92,7 +93,8 @@ theorem native_agrees (a b : Cell) (ha : a.isBool = false) (hb : b.isBool = fals
     (h : a.native b = some o) : cmp (.cell a) (.cell b) = o := Cell.native_agrees a b ha hb o h
 
 /-- the same for equal-length tuples of bool-free scalars (python compares tuples by their first `!=` pair; `cmp` compares
-type, length, then `cmparr`): this covers the `(key..., row number)` tuples that `dictable.sort` / `_listby` sort natively -/
+type, length, then `cmparr`).  FLAT tuples only; the nested `((k0, .., kn), i)` tuples that `dictable.sort` / `_listby` hand to
+`sorted()` are `native_agrees_keyId` below -/
 theorem native_agrees_tuple (xs ys : List Cell) (hlen : xs.length = ys.length)
     (hx : ∀ c ∈ xs, c.isBool = false) (hy : ∀ c ∈ ys, c.isBool = false) (o : Ordering)
     (h : nativeArr xs ys = some o) :
@@ -397,5 +399,269 @@ example : [Val.cell .none, .cell (.int 1), .cell (.flt 4), .cell .nan, .cell (.s
 #guard sort [.cell (.flt 8), .cell .nan, .cell (.int 1), .cell .none] ==
     [.cell .none, .cell (.int 1), .cell (.flt 8), .cell .nan]
 #guard sortIdx [.cell (.str "b"), .cell (.int 1), .cell (.str "a"), .cell (.flt 4)] == [1, 3, 2, 0]
+
+/-! ## Round h2 (review s2): the nested decorated tuples and the list-level step; several value orders; the whole table -/
+
+section round_h2
+
+/-- the nested `((k0, .., kn), i)` tuples that `dictable.sort` sorts natively (review s2 7b: `native_agrees_tuple` is about FLAT
+tuples): wherever python's comparison of two such tuples is defined — keys of equal length over bool-free cells — it is `cmp` of
+the decorated keys `keyId` -/
+theorem native_agrees_keyId (xs ys : List Cell) (i j : Nat) (hlen : xs.length = ys.length)
+    (hx : ∀ c ∈ xs, c.isBool = false) (hy : ∀ c ∈ ys, c.isBool = false) (o : Ordering)
+    (h : nativeKeyId (xs, i) (ys, j) = some o) :
+    cmp (keyId (.tuple (xs.map .cell), i)) (keyId (.tuple (ys.map .cell), j)) = o := by
+  rw [cmp_keyId]
+  simp only [nativeKeyId] at h
+  cases hn : nativeArr xs ys with
+  | none => simp [hn] at h
+  | some r =>
+    have hc := native_agrees_tuple xs ys hlen hx hy r hn
+    simp only [hc]
+    cases r <;> simp_all [Ordering.then]
+
+/-- THE LIST-LEVEL STEP (review s2 6b/7b: so far an informal argument): whatever algorithm `sorted()` runs, if its output — a
+permutation `l` of the row numbers — is natively increasing from each decorated key to the NEXT one (adjacent pairs only; no
+comparison raised), then `l` is exactly the permutation `sortIdx` of the model, i.e. the unique stable `cmp`-sort.  Assumed about
+CPython: only that the output of `sorted()` on pairwise distinct elements is adjacent-wise `<`. -/
+theorem native_sorted_is_sortIdx (rows : List (List Cell)) (w : Nat) (hw : ∀ r ∈ rows, r.length = w)
+    (hb : ∀ r ∈ rows, ∀ c ∈ r, c.isBool = false) (l : List Nat) (hp : l.Perm (List.range rows.length))
+    (hadj : Adjacent (fun a b => ∃ ra rb, rows[a]? = some ra ∧ rows[b]? = some rb ∧
+      nativeKeyId (ra, a) (rb, b) = some .lt) l) :
+    l = sortIdx (rows.map fun r => .tuple (r.map .cell)) := by
+  -- neighbours are `cmp`-increasing on the decorated keys, and that relation is transitive
+  have key := Adjacent.imp (S := fun a b => ∃ ra rb, rows[a]? = some ra ∧ rows[b]? = some rb ∧
+      cmp (keyId (.tuple (ra.map .cell), a)) (keyId (.tuple (rb.map .cell), b)) = .lt) (fun a b ⟨ra, rb, ha, hb', hn⟩ => by
+        have hma := List.mem_of_getElem? ha
+        have hmb := List.mem_of_getElem? hb'
+        exact ⟨ra, rb, ha, hb', native_agrees_keyId ra rb a b (by rw [hw ra hma, hw rb hmb]) (hb ra hma) (hb rb hmb) _ hn⟩) l hadj
+  have hpw := Adjacent.pairwise (fun a b c ⟨ra, rb, ha, hb1, h1⟩ ⟨rb', rc, hb2, hc, h2⟩ => by
+      rw [hb1] at hb2; cases hb2
+      exact ⟨ra, rc, ha, hc, cmp_lt_trans _ _ _ h1 h2⟩) l key
+  refine sortIdx_unique _ l (by simpa using hp) (hpw.imp ?_)
+  rintro a b ⟨ra, rb, ha, hb', hc⟩
+  refine ⟨.tuple (ra.map .cell), .tuple (rb.map .cell), by simp [ha], by simp [hb'], ?_⟩
+  rw [cmp_keyId] at hc
+  simp only at hc
+  cases h1 : cmp (Val.tuple (ra.map .cell)) (Val.tuple (rb.map .cell)) <;> simp [h1, Ordering.then] at hc ⊢
+  exact Nat.compare_eq_lt.1 hc
+
+theorem cmpArr_ranks : ∀ (as bs : List Nat),
+    cmpArr (as.map fun (a : Nat) => Val.cell (.int (a : Int))) (bs.map fun (b : Nat) => Val.cell (.int (b : Int))) = lexNat as bs
+  | [], _ => by simp [cmpArr, lexNat]
+  | _ :: _, [] => by simp [cmpArr, lexNat]
+  | a :: as, b :: bs => by
+    have h1 : cmpN (.cell (.int a)) (.cell (.int b)) = compare a b := by
+      have := cmp_rankKey a b
+      simp only [cmp, Val.norm, normList, cmpN, cmpArr] at this
+      cases hc : Cell.cmp (.int a) (.int b) <;> simp_all [Ordering.then, cmpN]
+    simp only [List.map_cons, cmpArr, lexNat, h1, cmpArr_ranks as bs]
+
+/-- on rank vectors of equal length `cmp` IS the lexicographic order of the ranks -/
+theorem cmp_rankKeys (as bs : List Nat) (h : as.length = bs.length) :
+    cmp (.list (as.map fun (a : Nat) => Val.cell (.int (a : Int)))) (.list (bs.map fun (b : Nat) => Val.cell (.int (b : Int)))) = lexNat as bs := by
+  have hn : ∀ xs : List Nat, normList (xs.map fun (a : Nat) => Val.cell (.int (a : Int))) = xs.map fun (a : Nat) => Val.cell (.int (a : Int)) := by
+    intro xs; induction xs with
+    | nil => rfl
+    | cons x xs ih => simp [normList, Val.norm, ih]
+  simp only [cmp, Val.norm, hn, cmpN, List.length_map, h, cmpArr_ranks]
+  simp [Ordering.then]
+
+theorem byvalKey_eq (orders : List (List Cell)) (row : List Cell) :
+    byvalKey orders row = .list ((byvalRanks orders row).map fun (a : Nat) => Val.cell (.int (a : Int))) := by
+  simp [byvalKey, byvalRanks, List.map_map, Function.comp_def]
+
+/-- explicit value orders on SEVERAL columns (`rs.sort(key = [...], gender = [...])`, the docstring example; review s2 9c:
+`byval_sorted` was single-column): rows of the width of the orders come out in lexicographic order of their rank vectors — first
+column's order first — and rows with equal rank vectors keep their original order -/
+theorem byval_sorted_multi (orders : List (List Cell)) (rows : List (List Cell))
+    (hw : ∀ r ∈ rows, r.length = orders.length) :
+    (sortIdx (rows.map (byvalKey orders))).Pairwise (fun a b =>
+      ∃ ra rb, rows[a]? = some ra ∧ rows[b]? = some rb ∧
+        (lexNat (byvalRanks orders ra) (byvalRanks orders rb) = .lt ∨
+          (lexNat (byvalRanks orders ra) (byvalRanks orders rb) = .eq ∧ a < b))) := by
+  refine (sortIdx_ordered (rows.map (byvalKey orders))).imp ?_
+  rintro a b ⟨ka, kb, ha, hb, h⟩
+  simp only [List.getElem?_map, Option.map_eq_some_iff] at ha hb
+  obtain ⟨ra, hra, rfl⟩ := ha
+  obtain ⟨rb, hrb, rfl⟩ := hb
+  refine ⟨ra, rb, hra, hrb, ?_⟩
+  have hl : (byvalRanks orders ra).length = (byvalRanks orders rb).length := by
+    simp [byvalRanks, hw ra (List.mem_of_getElem? hra), hw rb (List.mem_of_getElem? hrb)]
+  rw [byvalKey_eq, byvalKey_eq, cmp_rankKeys _ _ hl] at h
+  exact h
+
+/-- `lexNat` read off: the first column whose ranks differ decides -/
+theorem lexNat_lt_iff : ∀ (as bs : List Nat), as.length = bs.length →
+    (lexNat as bs = .lt ↔ ∃ i : Nat, (∀ j : Nat, j < i → as[j]? = bs[j]?) ∧ ∃ x y : Nat, as[i]? = some x ∧ bs[i]? = some y ∧ x < y)
+  | [], [], _ => by simp [lexNat]
+  | [], _ :: _, h => by simp at h
+  | _ :: _, [], h => by simp at h
+  | a :: as, b :: bs, h => by
+    have ih := lexNat_lt_iff as bs (by simpa using h)
+    simp only [lexNat]
+    cases hc : compare a b with
+    | lt =>
+      rw [Nat.compare_eq_lt] at hc
+      simp only [Ordering.then, true_iff]
+      exact ⟨0, by simp, a, b, by simp, by simp, hc⟩
+    | gt =>
+      rw [Nat.compare_eq_gt] at hc
+      simp only [Ordering.then, reduceCtorEq, false_iff]
+      rintro ⟨i, hpre, x, y, hx, hy, hlt⟩
+      cases i with
+      | zero => simp at hx hy; omega
+      | succ i => have := hpre 0 (by omega); simp at this; omega
+    | eq =>
+      rw [Nat.compare_eq_eq] at hc; subst hc
+      simp only [Ordering.then, ih]
+      constructor
+      · rintro ⟨i, hpre, x, y, hx, hy, hlt⟩
+        refine ⟨i + 1, ?_, x, y, by simpa using hx, by simpa using hy, hlt⟩
+        intro j hj
+        cases j with
+        | zero => simp
+        | succ j => simpa using hpre j (by omega)
+      · rintro ⟨i, hpre, x, y, hx, hy, hlt⟩
+        cases i with
+        | zero => simp at hx hy; omega
+        | succ i =>
+          refine ⟨i, fun j hj => by simpa using hpre (j + 1) (by omega), x, y, by simpa using hx, by simpa using hy, hlt⟩
+
+/-- the docstring example `rs.sort(key = ['c','a','f','d'], gender = ['f','m'])`, ranks of the rows (c,f) (f,m) (f,f) (g,f) -/
+example : byvalRanks [[.str "c", .str "a", .str "f", .str "d"], [.str "f", .str "m"]] [.str "f", .str "m"] = [2, 1] ∧
+    byvalRanks [[.str "c", .str "a", .str "f", .str "d"], [.str "f", .str "m"]] [.str "g", .str "f"] = [4, 0] ∧
+    lexNat [2, 0] [2, 1] = .lt ∧ lexNat [2, 1] [4, 0] = .lt := by decide
+
+end round_h2
+
+section table
+open Pyg.Table
+
+theorem col?_gatherRows (t : Table) (idx : List Nat) (c : String) :
+    (t.gatherRows idx).col? c = (t.col? c).map fun xs => idx.map fun i => xs.getD i .none := by
+  induction t with
+  | nil => simp [gatherRows, col?]
+  | cons x t ih =>
+    simp only [gatherRows, col?, List.map_cons, List.find?_cons] at ih ⊢
+    by_cases h : (x.1 == c) = true
+    · simp [h]
+    · simp only [h]; exact ih
+
+theorem nrows_gatherRows (t : Table) (idx : List Nat) (ht : t ≠ []) : (t.gatherRows idx).nrows = idx.length := by
+  cases t with
+  | nil => exact absurd rfl ht
+  | cons x t => simp [gatherRows, nrows]
+
+theorem sortCellAt_gatherRows (t : Table) (idx : List Nat) (c : String) (j : Nat) (hj : j < idx.length) (hc : c ∈ t.cols) :
+    (t.gatherRows idx).sortCellAt c j = t.sortCellAt c idx[j] := by
+  have : ∃ xs, t.col? c = some xs := by
+    simp only [cols, List.mem_map] at hc
+    obtain ⟨x, hx, rfl⟩ := hc
+    cases h : t.col? x.1 with
+    | some xs => exact ⟨xs, rfl⟩
+    | none =>
+      simp only [col?, Option.map_eq_none_iff, List.find?_eq_none] at h
+      exact absurd (by simp) (h x hx)
+  obtain ⟨xs, hxs⟩ := this
+  simp [sortCellAt, col?_gatherRows, hxs, List.getD_eq_getElem?_getD, hj]
+
+/-- the key tuples of the sorted table are the key tuples of `t`, gathered by the same permutation -/
+theorem sortKeys_gatherRows (t : Table) (by_ : List String) (idx : List Nat) (ht : t ≠ [])
+    (hby : ∀ c ∈ by_, c ∈ t.cols) (hidx : ∀ i ∈ idx, i < t.nrows) :
+    (t.gatherRows idx).sortKeys by_ = idx.map fun i => (t.sortKeys by_)[i]?.getD default := by
+  apply List.ext_getElem
+  · simp [sortKeys, nrows_gatherRows t idx ht]
+  · intro j h1 h2
+    have hj : j < idx.length := by simpa [sortKeys, nrows_gatherRows t idx ht] using h1
+    have hi := hidx idx[j] (List.getElem_mem hj)
+    simp only [sortKeys, List.getElem_map, List.getElem_range, List.getElem?_map, List.getElem?_range hi, Option.map_some,
+      Option.getD_some]
+    congr 1
+    apply List.map_congr_left
+    intro c hc
+    rw [sortCellAt_gatherRows t idx c j hj (hby c hc)]
+
+theorem gatherRows_range (t : Table) (n : Nat) (hr : t.Rect n) : t.gatherRows (List.range n) = t := by
+  unfold gatherRows
+  conv => rhs; rw [← List.map_id t]
+  apply List.map_congr_left
+  intro c hc
+  have hl := hr c hc
+  refine Prod.ext rfl ?_
+  apply List.ext_getElem
+  · simp [hl]
+  · intro i h1 h2
+    have h3 : i < c.2.length := by simpa using h2
+    simp [List.getD_eq_getElem?_getD, List.getElem?_eq_getElem h3]
+
+/-- **`dictable.sort(*by)` on the whole table** (rectangular, `by` names columns): the result has the same columns; row `j` of the
+result — every cell of it, key and non-key columns alike — is row `(sortIdx keys)[j]` of `t`; that permutation is ordered by the
+key tuples with ties in original order (`sortIdx_ordered`) and is the only such permutation (`sortIdx_unique`) -/
+theorem dictable_sort_spec (t : Table) (n : Nat) (by_ : List String) (hr : t.Rect n) (hn : t.nrows = n) (hn0 : n ≠ 0)
+    (hby0 : by_ ≠ []) (hby : ∀ c ∈ by_, c ∈ t.cols) :
+    ∃ r, t.sortBy by_ = .ok r ∧ r = t.gatherRows (sortIdx (t.sortKeys by_)) ∧ r.cols = t.cols ∧ r.Rect n ∧
+      (sortIdx (t.sortKeys by_)).Perm (List.range n) ∧
+      (∀ j (hj : j < (sortIdx (t.sortKeys by_)).length), r.row j = t.row (sortIdx (t.sortKeys by_))[j]) ∧
+      r.sortKeys by_ = (sortIdx (t.sortKeys by_)).map fun i => (t.sortKeys by_)[i]?.getD default := by
+  have hall : by_.all (t.cols.contains ·) = true := by
+    rw [List.all_eq_true]; intro c hc; simpa using hby c hc
+  have hlen : (t.sortKeys by_).length = n := by simp [sortKeys, hn]
+  have hperm := sortIdx_perm (t.sortKeys by_)
+  rw [hlen] at hperm
+  have ht : t ≠ [] := by intro e; subst e; simp [nrows] at hn; exact hn0 hn.symm
+  refine ⟨_, by simp only [sortBy, hn, hn0, hby0, or_self, if_false, hall, if_true, pure, Except.pure], rfl, cols_gatherRows _ _, ?_, hperm, ?_, ?_⟩
+  · have := gatherRows_rect t (sortIdx (t.sortKeys by_)); rwa [hperm.length_eq, List.length_range] at this
+  · intro j hj; exact row_gatherRows t _ j hj
+  · refine sortKeys_gatherRows t by_ _ ht hby ?_
+    intro i hi
+    have := hperm.mem_iff.1 hi
+    simpa [hn] using this
+
+/-- **idempotent, at table level**: sorting the sorted table again returns it unchanged — all columns -/
+theorem dictable_sort_idem (t : Table) (n : Nat) (by_ : List String) (hr : t.Rect n) (hn : t.nrows = n)
+    (hby : ∀ c ∈ by_, c ∈ t.cols) (r : Table) (h : t.sortBy by_ = .ok r) : r.sortBy by_ = .ok r := by
+  by_cases h0 : t.nrows = 0 ∨ by_ = []
+  · simp only [sortBy, h0, if_true, pure, Except.pure, Except.ok.injEq] at h; subst h
+    simp [sortBy, h0, pure, Except.pure]
+  · have hn0 : n ≠ 0 := by intro e; apply h0; left; omega
+    have hby0 : by_ ≠ [] := fun e => h0 (.inr e)
+    obtain ⟨r', hr', rfl, hcols, hrect, hperm, _, hkeys⟩ := dictable_sort_spec t n by_ hr hn hn0 hby0 hby
+    rw [h] at hr'; cases hr'
+    have ht : t ≠ [] := by intro e; subst e; simp [nrows] at hn; exact hn0 hn.symm
+    have hnr : (t.gatherRows (sortIdx (t.sortKeys by_))).nrows = n := by
+      rw [nrows_gatherRows t _ ht, hperm.length_eq, List.length_range]
+    have hall : by_.all ((t.gatherRows (sortIdx (t.sortKeys by_))).cols.contains ·) = true := by
+      rw [List.all_eq_true]; intro c hc; rw [hcols]; simpa using hby c hc
+    have hlen : (t.sortKeys by_).length = n := by simp [sortKeys, hn]
+    simp only [sortBy, hnr, hn0, hby0, or_self, if_false, hall, if_true, pure, Except.pure, Except.ok.injEq]
+    rw [hkeys, sortIdx_twice, hlen]
+    exact gatherRows_range _ n hrect
+
+end table
+
+/-- non-vacuity: `nativeKeyId` is defined and `lt` on mixed int/float keys, undefined (`TypeError`) on int against str -/
+example : nativeKeyId ([.int 1, .str "a"], 0) ([.flt 4, .str "b"], 1) = some .lt ∧
+    nativeKeyId ([.int 1], 0) ([.flt 4], 1) = some .lt ∧ nativeKeyId ([.int 1], 1) ([.str "a"], 0) = Option.none := by decide
+/-- the hypotheses of `native_sorted_is_sortIdx` on a concrete column: the output `[1, 2, 0]` of `sorted()` for keys 3, 1, 1.0 -/
+example : Adjacent (fun a b => ∃ ra rb, [[Cell.int 3], [.int 1], [.flt 4]][a]? = some ra ∧ [[Cell.int 3], [.int 1], [.flt 4]][b]? = some rb ∧
+    nativeKeyId (ra, a) (rb, b) = some .lt) [1, 2, 0] :=
+  ⟨⟨_, _, rfl, rfl, by decide⟩, ⟨_, _, rfl, rfl, by decide⟩, trivial⟩
+#guard sortIdx ([[Cell.int 3], [.int 1], [.flt 4]].map fun r => Val.tuple (r.map .cell)) == [1, 2, 0]
+#guard (match Table.sortBy [("a", [.int 3, .int 1, .int 2, .int 1]), ("b", [.str "x", .str "y", .str "z", .str "w"])] ["a"] with
+  | .ok r => r == [("a", [.int 1, .int 1, .int 2, .int 3]), ("b", [.str "y", .str "w", .str "z", .str "x"])]
+  | _ => false)
+/-- the hypotheses of `dictable_sort_spec` / `dictable_sort_idem` are satisfiable -/
+example : let t : Table := [("a", [.int 3, .int 1]), ("b", [.str "x", .str "y"])]
+    t.Rect 2 ∧ t.nrows = 2 ∧ (∀ c ∈ ["a"], c ∈ t.cols) := by decide
+
+/-- the hypotheses of `native_agrees`, `native_agrees_tuple`, `byvalRank_listed`, `byval_unlisted_last` are satisfiable -/
+example : (Cell.int 1).native (.flt 8) = some .lt ∧ nativeArr [.int 1, .str "a"] [.int 2, .none] = some .lt := by decide
+example : byvalRank [.str "c", .str "a", .str "f"] (.str "a") = 1 :=
+  byvalRank_listed [.str "c", .str "a", .str "f"] 1 (by decide) (by decide)
+    (by intro j h1 hj; have : j = 2 := by simp at hj; omega
+        subst this; rfl)
+example : byvalRank [.str "c", .str "a"] (.str "a") < byvalRank [.str "c", .str "a"] (.str "zz") :=
+  byval_unlisted_last _ (by decide) _ _ ⟨.str "a", by decide, by decide⟩ (by decide)
 
 end Pyg.Props.C07
